@@ -73,7 +73,19 @@ RULE = ("flows through the real authorization+token endpoints of 9 providers (co
         "(essential on/off) and through the log-in page (7 histories), plus random multi-member flows.  Ground truth: the "
         "hashlib verdict on the PKCE parameters alone, and the TWIN flow without the extension parameters (same outcome, same "
         "recorded pair); model: flow_x / authz_leg_x / token_hook / post_parse of Model/Pkce.v (the request is a list of "
-        "members, the hooks read theirs by name; C15_extras_irrelevant).")
+        "members, the hooks read theirs by name; C15_extras_irrelevant).  "
+        "(9) HISTORIES OF THE RELYING PARTY'S VERIFIER STORE: an OAuth2 and an OIDC relying party (real authorization and "
+        "access-token services with the PKCE add-on) x configured method S256/S384/S512/default (random part: also methods the "
+        "RP has no transform for) x configured length none/43/64/128 (random part: 1, 42, 129) x the authorization request "
+        "built 1..3 times under ONE state value (caller-supplied fixed state or cstate.create_state; state passed in the "
+        "request arguments or as keyword) x requests under a second state interleaved x the response to an earlier request "
+        "stored in between or not x which request's code is redeemed by the RP's own token request (each of them; an earlier "
+        "one and then the latest), every request sent to a real provider.  Observed: the verifier each request drew, the "
+        "challenge it sent, the code_verifier of the token request, the provider's answer.  Oracle: the token request carries the "
+        "verifier of the LATEST request built under its state (rp-stale-verifier), the code of the latest request is redeemed "
+        "(rp-op-disagree), the code of an earlier request yields tokens only if the verifier sent transforms to the challenge "
+        "recorded for it; model: rp_run / rp_sent of Model/PkceRp.v (Current.update / set / get_set, the OAuth2 service "
+        "updates the record, the OIDC service resets it; C15_rp_latest_begin_sent, C15_rp_latest_pair_accepted).")
 ASSUMPTIONS = [
     "HB bits v = b64url_nopad(sha<bits>(ascii v)) is an arbitrary function in C15_bound/_essential/_no_downgrade; "
     "C15_near_miss_refused assumes it injective (collision-free hash), C15_rp_op_agree assumes its output non-empty",
@@ -91,6 +103,11 @@ ASSUMPTIONS = [
     "A push that fails as a whole because of a member of the pushed body (unchanged library: a plain body with "
     "`__verified_request`, AttributeError in Authorization._post_parse_request, nothing issued) is counted "
     "(extras:push-failed-for-another-reason), not modelled: whether a push is accepted is C16's subject",
+    "relying-party histories: the add-on's configuration (method, length) is fixed during a history; what is stored under a "
+    "state between two requests is an authorization response without a member called code_verifier (Current.update would take "
+    "a member of that name; quiet of Proofs/PkceRp_proofs.v); only the string members of the stored request are given to the "
+    "model and the authorization code is abbreviated there (the store's treatment of a member depends on its name only, and on "
+    "the value for `nonce`)",
 ]
 
 PKCE_FN = "idpyoidc.server.oauth2.add_on.pkce.add_support"
@@ -1101,6 +1118,265 @@ def rp_cases(ctx, provs, rng, cases, rpcases, unres_cases):
         cp.unreserved = real_unreserved
 
 
+# ---------------------------------------------------------------- histories of the relying party's verifier store
+# The RP's add-on keeps the verifier in the client's state record (cstate) under the state value.  An application may build
+# the authorization request again under the SAME state (regenerated log-in URL, retry, caller-supplied fixed state); the
+# OAuth2 authorization service updates the existing record, the OIDC one resets it first.  A history:
+#   spec = {"client_type": "oauth2" | "oidc", "method": configured method or None, "length": configured length or None,
+#           "state_mode": "fixed" (caller-supplied value) | "created" (cstate.create_state first),
+#           "state_via": "args" (request_args["state"]) | "kwargs" (construct_request(..., state=)),
+#           "steps": [["begin", label] | ["resp", label] (the response to the latest request under label is stored) |
+#                     ["redeem", label, j] (the code of the j-th answered request under label is redeemed by the RP's own
+#                      token request; j = 0: the token request is only built)]}
+# Model: rp_run / rp_sent of Model/PkceRp.v (C15_rp_latest_begin_sent, C15_rp_latest_pair_accepted).  Oracle (property text:
+# "a challenge/verifier pair produced by this library's relying party is always accepted by this library's provider"): the
+# token request carries the verifier drawn for the LATEST request built under its state (rp-stale-verifier), the code of the
+# latest request is redeemed (rp-op-disagree), the code of an earlier request is decided by the provider on the challenge
+# recorded for it (oracle(): tokens-wrong-verifier).
+RP_ISS = "https://op.example.com"
+HIST_IMP = ["Lib.Base", "Lib.PyStr", "Lib.PkceTy", "Gen.PkceTables", "Model.Pkce", "Model.PkceRp"]
+
+
+def make_rp_ct(secret, ct):
+    from idpyoidc.client.defaults import DEFAULT_OAUTH2_SERVICES, DEFAULT_OIDC_SERVICES
+    from idpyoidc.client.entity import Entity
+    from idpyoidc.client.oauth2.add_on import do_add_ons
+    config = {
+        "client_id": "client_1", "client_secret": secret, "issuer": RP_ISS,
+        "redirect_uris": ["https://client_1.example.com/cb"],
+        "preference": {"response_types": ["code"]},
+        "add_ons": {"pkce": {"function": "idpyoidc.client.oauth2.add_on.pkce.add_support",
+                             "kwargs": {"code_challenge_length": 64, "code_challenge_method": "S256"}}},
+    }
+    ent = Entity(config=config, services=DEFAULT_OAUTH2_SERVICES if ct == "oauth2" else DEFAULT_OIDC_SERVICES, client_type=ct)
+    do_add_ons(config["add_ons"], ent.get_services())
+    return ent
+
+
+def coq_crec(pairs):
+    return coq_list(["(%s, %s)" % (coq_str(k), coq_str(v)) for k, v in pairs], "(pystr * pystr)")
+
+
+def coq_sent(x):
+    if x == "KeyError":
+        return "(@Err (option pystr) KeyError)"
+    return "(@Ok (option pystr) %s)" % s_opt(x)
+
+
+class Draws:
+    """stands in for idpyoidc.client.oauth2.add_on.pkce.unreserved: our randomness (or recorded draws), remembered"""
+
+    def __init__(self, rng, alphabet, feed=None):
+        self.rng, self.alphabet, self.feed, self.last, self.all = rng, alphabet, list(feed or []), [], []
+
+    def __call__(self, size=64):
+        v = self.feed.pop(0) if self.feed else "".join(self.rng.choice(self.alphabet) for _ in range(size))
+        self.last.append(v)
+        self.all.append(v)
+        return v
+
+
+def run_history(ctx, prov, ent, spec, tag, draws, cases, rpcases, hcases):
+    """runs one history on the real services of the relying party `ent` and the real provider `prov`"""
+    from idpyoidc.message.oauth2 import AuthorizationResponse
+    rctx = ent.get_context()
+    azs, tks = ent.get_service("authorization"), ent.get_service("accesstoken")
+    oidc = spec["client_type"] == "oidc"
+    kw = {}
+    if spec.get("method") is not None:
+        kw["code_challenge_method"] = spec["method"]
+    if spec.get("length") is not None:
+        kw["code_challenge_length"] = spec["length"]
+    rctx.add_on["pkce"] = kw
+    iss = rctx.issuer or ""
+    states, ops, trace, begins, drawn = {}, [], [], {}, []
+    outs = []
+    del draws.all[:]
+    prov.set_client_flag(None)
+    prov.cookie_in = None
+
+    def state_of(label):
+        if label not in states:
+            if spec.get("state_mode") == "created":
+                states[label] = rctx.cstate.create_state(iss=iss)
+                ops.append("(RpStore %s %s)" % (coq_str(states[label]), coq_crec([("iss", iss)])))
+            else:
+                states[label] = "h%s%s" % (tag, label)
+            begins[label] = []
+        return states[label]
+
+    def base_rec(label):
+        return {"kind": "rp-history", "provider": prov.describe(), "rp_history": spec, "drawn": list(draws.all),
+                "state": states[label], "trace": list(trace), "pkce_essential": None, "token_code_challenge_method": None}
+
+    for step in spec["steps"]:
+        label = step[1]
+        s = state_of(label)
+        if step[0] == "begin":
+            del draws.last[:]
+            args, kwargs = {"response_type": "code"}, {}
+            if spec.get("state_via") == "kwargs":
+                kwargs["state"] = s
+            else:
+                args["state"] = s
+            try:
+                areq = azs.construct_request(args, **kwargs).to_dict()
+                err = None
+            except Exception as e:
+                areq, err = None, type(e).__name__
+            v = draws.last[0] if draws.last else ""
+            drawn.append(v)
+            if err is not None:
+                trace.append({"begin": label, "verifier_drawn": v, "raised": err})
+                ops.append("(RpBegin %s %s %s %s %s %s)" % (coq_bool(oidc), coq_str(s), s_opt(spec.get("method")), coq_str(v),
+                                                            coq_str(iss), coq_crec([])))
+                ctx.count("rp-history:begin-" + err)
+                if err == "Unsupported":
+                    rpcases.append(("(%s, %s, %s, %s)" % (s_opt(spec.get("method")), coq_str(v), hb_table([v]),
+                                                          "(@Err (pystr * pystr) (Refused 5%N))"), base_rec(label)))
+                else:
+                    ctx.mismatch("relying party raised %s while building the authorization request" % err, base_rec(label))
+                continue
+            cc, ccm = areq.get("code_challenge"), areq.get("code_challenge_method")
+            others = [(k, x) for k, x in areq.items() if isinstance(x, str) and k not in ("code_challenge", "code_challenge_method")]
+            ops.append("(RpBegin %s %s %s %s %s %s)" % (coq_bool(oidc), coq_str(s), s_opt(spec.get("method")), coq_str(v),
+                                                        coq_str(iss), coq_crec(others)))
+            try:
+                stored = rctx.cstate.get_set(s, claim=["code_verifier"]).get("code_verifier")
+            except KeyError:
+                stored = "KeyError"
+            a = prov.authz_req(dict(areq, scope="openid"))
+            b = {"v": v, "cc": cc, "ccm": ccm, "code": a[1] if a[0] == "code" else None}
+            begins[label].append(b)
+            trace.append({"begin": label, "verifier_drawn": v, "code_challenge": cc, "code_challenge_method": ccm,
+                          "verifier_in_state_record": stored, "authorization": a[0] if a[0] == "code" else list(a)})
+            rec = base_rec(label)
+            rpcases.append(("(%s, %s, %s, (Ok (%s, %s)))" % (s_opt(spec.get("method")), coq_str(v), hb_table([v]),
+                                                              coq_str(cc or ""), coq_str(ccm or "")), rec))
+            if ref_tr(ccm, v) != cc:
+                ctx.violation("rp-challenge-wrong", "RP sent code_challenge %r for the verifier %r it drew, under %r" % (cc, v, ccm), rec)
+            continue
+        answered = [b for b in begins[label] if b["code"] is not None]
+        if step[0] == "resp":
+            if not answered or begins[label][-1]["code"] is None:
+                continue
+            code = begins[label][-1]["code"]
+            rctx.cstate.update(s, AuthorizationResponse(code=code, state=s))
+            ops.append("(RpStore %s %s)" % (coq_str(s), coq_crec([("code", code[:16]), ("state", s)])))
+            trace.append({"response_stored": label, "for_request": len(begins[label])})
+            continue
+        # redeem: the response carrying the chosen code arrives, the RP builds its token request
+        j = step[2]
+        b = answered[j - 1] if 0 < j <= len(answered) else None
+        code = b["code"] if b else "placeholder-code"
+        rctx.cstate.update(s, AuthorizationResponse(code=code, state=s))
+        ops.append("(RpStore %s %s)" % (coq_str(s), coq_crec([("code", code[:16]), ("state", s)])))
+        try:
+            treq = tks.construct_request(state=s).to_dict()
+            sent_v = treq.get("code_verifier")
+            obs = sent_v
+        except KeyError:
+            treq, sent_v, obs = None, None, "KeyError"
+        latest = begins[label][-1] if begins[label] else None
+        is_latest = b is not None and b is latest
+        if b is not None and treq is not None:
+            out = prov.token_req(treq)
+        else:
+            out = None
+        trace.append({"redeem": label, "request": j if b else 0, "of": len(begins[label]), "token_code_verifier": obs,
+                      "outcome": list(out) if out else None})
+        rec = base_rec(label)
+        rec.update({"redeemed_request": j if b else 0, "requests_under_state": len(begins[label]),
+                    "latest_verifier": latest["v"] if latest else None, "token_code_verifier": obs,
+                    "code_challenge": b["cc"] if b else None, "code_challenge_method": b["ccm"] if b else None,
+                    "code_verifier": sent_v, "outcome": list(out) if out else None})
+        ctx.case_seen(rec, True)
+        ctx.count("rp-history:%s:%s" % (spec["client_type"],
+                                         "built-only" if out is None else ("latest" if is_latest else "earlier") + ":" + out[0]))
+        ctx.count("rp-history:requests-under-state=%d" % len(begins[label]))
+        hcases.append(("(%s, %s, %s, %s)" % (coq_list(ops, "rp_op"), coq_str(s), hb_table(drawn), coq_sent(obs)), rec))
+        # oracle 1: the token request carries the verifier of the latest request built under its state
+        if latest is not None and obs != latest["v"]:
+            ctx.violation("rp-stale-verifier",
+                          "%s relying party: the authorization request was built %d time(s) under state %r, the latest one "
+                          "with code_challenge %r (verifier %r); the token request carries code_verifier %r"
+                          % (spec["client_type"], len(begins[label]), s, latest["cc"], latest["v"], obs), rec)
+        if out is None:
+            continue
+        outs.append(out)
+        # oracle 2: the pair of the latest request is accepted by this library's provider
+        if is_latest and b["ccm"] in prov.methods and b["v"] != "" and out[0] != "Tokens":
+            ctx.violation("rp-op-disagree",
+                          "pair produced by the library's %s RP (method %r; request %d of %d under the state) refused by the "
+                          "library's provider (configured %r): %r; %s(code_verifier sent) %s the code_challenge sent"
+                          % (spec["client_type"], b["ccm"], j, len(begins[label]), prov.methods, out, b["ccm"],
+                             "=" if ref_tr(b["ccm"], sent_v or "") == b["cc"] else "!="), rec)
+        # oracle 3 (any code, earlier ones in particular): tokens only for a verifier that transforms to the challenge the
+        # provider recorded for THAT code
+        oracle(ctx, prov, rec, out, bool(b["cc"]), prov.essential)
+        term = "(%s, %s, %s, %s, %s, %s, %s, %s, %s)" % (
+            coq_list([coq_str(m) for m in prov.methods], "pystr"), coq_bool(prov.essential), b_opt(None),
+            s_opt(b["cc"]), s_opt(b["ccm"]), s_opt(sent_v), s_opt(None), hb_table([sent_v]), coq_outcome(out))
+        cases.append((term, rec))
+    return outs
+
+
+def history_spec(rng, ct, method, length, n, j, inter, mode="fixed", via="args"):
+    steps = []
+    for i in range(1, n + 1):
+        steps.append(["begin", "A"])
+        if inter and (i == 1 or rng.random() < 0.4):
+            steps.append(["begin", "B"])
+        if i < n and rng.random() < 0.5:
+            steps.append(["resp", "A"])
+    nb = sum(1 for x in steps if x == ["begin", "B"])
+    b_first = inter and rng.random() < 0.5
+    if b_first:
+        steps.append(["redeem", "B", nb])
+    steps.append(["redeem", "A", j])
+    if j != n and rng.random() < 0.6:
+        steps.append(["redeem", "A", n])       # ... and then the code of the latest request
+    if inter and not b_first:
+        steps.append(["redeem", "B", nb])
+    return {"client_type": ct, "method": method, "length": length, "state_mode": mode, "state_via": via, "steps": steps}
+
+
+def rp_histories(ctx, provs, rng, cases, rpcases, hcases, n_random):
+    import idpyoidc.client.oauth2.add_on.pkce as cp
+    import idpyoidc.client.util as cu
+    draws = Draws(rng, cu.BASECHR)
+    real_unreserved = cp.unreserved
+    cp.unreserved = draws
+    try:
+        secret = provs[0].server.context.cdb["client_1"]["client_secret"]
+        ents = {ct: make_rp_ct(secret, ct) for ct in ("oauth2", "oidc")}
+        seq = 0
+
+        def pick(method):
+            eff = method or "S256"
+            good = [p for p in provs if eff in p.methods]
+            return rng.choice(good) if good and rng.random() < 0.85 else rng.choice(provs)
+        for ct in ("oauth2", "oidc"):
+            for method in ("S256", "S384", "S512", None):
+                for n in (1, 2, 3):
+                    for j in range(1, n + 1):
+                        for inter in (False, True):
+                            seq += 1
+                            spec = history_spec(rng, ct, method, rng.choice([None, 43, 64, 128]), n, j, inter,
+                                                mode=rng.choice(["fixed", "fixed", "created"]), via=rng.choice(["args", "kwargs"]))
+                            run_history(ctx, pick(method), ents[ct], spec, str(seq), draws, cases, rpcases, hcases)
+        for _ in range(n_random):
+            seq += 1
+            ct = rng.choice(["oauth2", "oidc"])
+            method = rng.choice(["S256", "S256", "S384", "S512", None, None, "plain", "S1"])
+            n = rng.choice([1, 2, 2, 3, 3])
+            spec = history_spec(rng, ct, method, rng.choice([None, 1, 42, 43, 64, 128, 129]), n, rng.randint(0, n), rng.random() < 0.5,
+                                mode=rng.choice(["fixed", "created"]), via=rng.choice(["args", "kwargs"]))
+            run_history(ctx, pick(method), ents[ct], spec, str(seq), draws, cases, rpcases, hcases)
+    finally:
+        cp.unreserved = real_unreserved
+
+
 def downgrade_pairs(ctx, provs, rng, cases):
     """same flow with and without a token-request method: outcomes must be equal (oracle, property text:
     'under the method recorded at authorization time')."""
@@ -1807,7 +2083,7 @@ def run(ctx):
     logging.getLogger("idpyoidc").setLevel(logging.CRITICAL)
     rng = ctx.rng
     provs = build_providers()
-    cases, rpcases, unres, dcases, icases, xcases, xicases = [], [], [], [], [], [], []
+    cases, rpcases, unres, dcases, icases, xcases, xicases, hcases = [], [], [], [], [], [], [], []
     single_faults(ctx, provs, rng, cases)
     presence_table(ctx, provs, rng, cases)
     lengths_and_alphabets(ctx, provs, rng, cases)
@@ -1821,6 +2097,7 @@ def run(ctx):
     interactive_section(ctx, rng, icases, dcases, xicases=xicases)
     extras_matrix(ctx, provs, rng, xcases)
     extras_random(ctx, provs, rng, xcases, 300 if ctx.quick else 20000)
+    rp_histories(ctx, provs, rng, cases, rpcases, hcases, 60 if ctx.quick else 4000)
     imp = ["Lib.Base", "Lib.PyStr", "Lib.PkceTy", "Gen.PkceTables", "Model.Pkce"]
     check_cases_shared(ctx, imp, "flow_case", "chk_flow", cases, shard=400, label="flow", diag="flow_model")
     check_cases_shared(ctx, imp, "dflow_case", "chk_dflow", dcases, shard=400, label="dflow", diag="dflow_model")
@@ -1829,12 +2106,41 @@ def run(ctx):
     check_cases_shared(ctx, imp, "xiflow_case", "chk_xiflow", xicases, shard=200, label="xiflow", diag="xiflow_model")
     ctx.coq_check_cases(imp, "rp_case", "chk_rp", rpcases, shard=200, label="rp", diag="rp_model")
     ctx.coq_check_cases(imp, "pystr * bool", "chk_unreserved", unres, shard=200, label="unres")
+    check_cases_shared(ctx, HIST_IMP, "hist_case", "chk_hist", hcases, shard=100, label="hist", diag="hist_model")
 
 
 def replay(ctx, rp):
     """Re-run the recorded flow (or, for a broken obligation, the generator with the recorded seed)."""
     case = rp.get("case") or {}
     imp = ["Lib.Base", "Lib.PyStr", "Lib.PkceTy", "Gen.PkceTables", "Model.Pkce"]
+    if "rp_history" in case and "provider" in case:
+        import logging
+        import srv
+        logging.getLogger("idpyoidc").setLevel(logging.CRITICAL)
+        import idpyoidc.client.oauth2.add_on.pkce as cp
+        import idpyoidc.client.util as cu
+        p, spec = case["provider"], case["rp_history"]
+        prov = Prov(srv, p["methods"], p["essential"], p.get("oidc", True))
+        draws = Draws(ctx.rng, cu.BASECHR, feed=case.get("drawn"))
+        real_unreserved = cp.unreserved
+        cp.unreserved = draws
+        try:
+            ent = make_rp_ct(prov.server.context.cdb["client_1"]["client_secret"], spec["client_type"])
+            fc, rc, hc = [], [], []
+            run_history(ctx, prov, ent, spec, "replay", draws, fc, rc, hc)
+        finally:
+            cp.unreserved = real_unreserved
+        for _, r in hc:
+            ctx.notes.append("replayed history (%s RP, method %r): request %d of %d under state %r redeemed; verifier of the latest "
+                             "request %r, code_verifier of the token request %r, challenge of the redeemed request %r, outcome %r"
+                             % (spec["client_type"], spec.get("method"), r["redeemed_request"], r["requests_under_state"],
+                                r["state"], r["latest_verifier"], r["token_code_verifier"], r["code_challenge"], r["outcome"]))
+        ctx.notes.append("recorded run: code_verifier of the token request %r, outcome %r; steps %r"
+                         % (case.get("token_code_verifier"), case.get("outcome"), spec["steps"]))
+        check_cases_shared(ctx, HIST_IMP, "hist_case", "chk_hist", hc, label="replay", diag="hist_model")
+        ctx.coq_check_cases(imp, "flow_case", "chk_flow", fc, label="replay", diag="flow_model")
+        ctx.coq_check_cases(imp, "rp_case", "chk_rp", rc, label="replay", diag="rp_model")
+        return
     if "token_extras" in case and "delivery" in case and "provider" in case:
         p = case["provider"]
         if "interactive" in case:
